@@ -8,7 +8,7 @@
 -/
 import ICG.Lemmas.SpecSA2
 
-namespace ICG
+namespace ICG.SpecSA
 
 /-- `known'` knows at least what `known` knows -/
 def KnownLe (known known' : Nat → Bool) : Prop := ∀ c, known c = true → known' c = true
@@ -18,7 +18,7 @@ theorem KnownLe.refl (known : Nat → Bool) : KnownLe known known := fun _ h => 
 theorem KnownLe.trans {k1 k2 k3 : Nat → Bool} (h12 : KnownLe k1 k2) (h23 : KnownLe k2 k3) : KnownLe k1 k3 :=
   fun c h => h23 c (h12 c h)
 
-theorem MinInfo.mono {n : Nat} {known known' : Nat → Bool} (hmin : MinInfo n known)
+theorem minInfo_mono {n : Nat} {known known' : Nat → Bool} (hmin : MinInfo n known)
     (hle : KnownLe known known') : MinInfo n known' :=
   ⟨hle _ hmin.1, hle _ hmin.2.1, fun i hi => hle _ (hmin.2.2 i hi)⟩
 
@@ -35,7 +35,7 @@ variable {α : Type} [AddCommGroup α] [LinearOrder α] [IsOrderedAddMonoid α]
 theorem loSpec_mono_knowledge {n : Nat} {known known' : Nat → Bool} (hmin : MinInfo n known)
     (hle : KnownLe known known') {v : Nat → α} (hv : SA n v) :
     ∀ c, c < 2 ^ n → loSpec known v c ≤ loSpec known' v c := by
-  have hmin' := hmin.mono hle
+  have hmin' := minInfo_mono hmin hle
   intro c
   induction c using Nat.strong_induction_on with
   | _ c ih =>
@@ -59,7 +59,7 @@ theorem loSpec_mono_knowledge {n : Nat} {known known' : Nat → Bool} (hmin : Mi
 theorem upSpec_anti_knowledge {n : Nat} {known known' : Nat → Bool} (hmin : MinInfo n known)
     (hle : KnownLe known known') {v : Nat → α} (hv : SA n v) :
     ∀ c, c < 2 ^ n → upSpec n known' v c ≤ upSpec n known v c := by
-  have hmin' := hmin.mono hle
+  have hmin' := minInfo_mono hmin hle
   intro c hc
   cases hk' : known' c with
   | true =>
@@ -82,39 +82,39 @@ theorem interval_nested {n : Nat} {known known' : Nat → Bool} (hmin : MinInfo 
     loSpec known v c ≤ loSpec known' v c ∧ loSpec known' v c ≤ v c ∧
       v c ≤ upSpec n known' v c ∧ upSpec n known' v c ≤ upSpec n known v c :=
   ⟨loSpec_mono_knowledge hmin hle hv c hc,
-   loSpec_le_completion (hmin.mono hle) (completion_self known' hv) c hc,
-   completion_le_upSpec (hmin.mono hle) (completion_self known' hv) c hc,
+   loSpec_le_completion (minInfo_mono hmin hle) (completion_self known' hv) c hc,
+   completion_le_upSpec (minInfo_mono hmin hle) (completion_self known' hv) c hc,
    upSpec_anti_knowledge hmin hle hv c hc⟩
 
 /-! ### G, chain version: reveals made one at a time -/
 
 /-- reveal the value of coalition `m` -/
-def reveal (known : Nat → Bool) (m : Nat) : Nat → Bool := fun c => known c || c == m
+def revealMask (known : Nat → Bool) (m : Nat) : Nat → Bool := fun c => known c || c == m
 
 /-- reveal a list of coalitions one at a time, left to right -/
-def revealL (known : Nat → Bool) (ms : List Nat) : Nat → Bool := ms.foldl reveal known
+def revealMasks (known : Nat → Bool) (ms : List Nat) : Nat → Bool := ms.foldl revealMask known
 
-theorem knownLe_reveal (known : Nat → Bool) (m : Nat) : KnownLe known (reveal known m) := by
-  intro c h; simp [reveal, h]
+theorem knownLe_reveal (known : Nat → Bool) (m : Nat) : KnownLe known (revealMask known m) := by
+  intro c h; simp [revealMask, h]
 
-theorem knownLe_revealL (known : Nat → Bool) (ms : List Nat) : KnownLe known (revealL known ms) := by
-  unfold revealL
+theorem knownLe_revealL (known : Nat → Bool) (ms : List Nat) : KnownLe known (revealMasks known ms) := by
+  unfold revealMasks
   induction ms generalizing known with
   | nil => exact KnownLe.refl known
-  | cons m ms ih => exact (knownLe_reveal known m).trans (ih (reveal known m))
+  | cons m ms ih => exact (knownLe_reveal known m).trans (ih (revealMask known m))
 
 theorem revealL_append (known : Nat → Bool) (ms ms' : List Nat) :
-    revealL known (ms ++ ms') = revealL (revealL known ms) ms' := by
-  simp [revealL, List.foldl_append]
+    revealMasks known (ms ++ ms') = revealMasks (revealMasks known ms) ms' := by
+  simp [revealMasks, List.foldl_append]
 
 /-- **C07, chain.**  Along any sequence of reveals of values of one superadditive game the intervals are
     nested: the interval after `ms ++ ms'` lies inside the interval after `ms`. -/
 theorem reveal_chain_nested {n : Nat} {known : Nat → Bool} (hmin : MinInfo n known) {v : Nat → α}
     (hv : SA n v) (ms ms' : List Nat) {c : Nat} (hc : c < 2 ^ n) :
-    loSpec (revealL known ms) v c ≤ loSpec (revealL known (ms ++ ms')) v c ∧
-      upSpec n (revealL known (ms ++ ms')) v c ≤ upSpec n (revealL known ms) v c := by
+    loSpec (revealMasks known ms) v c ≤ loSpec (revealMasks known (ms ++ ms')) v c ∧
+      upSpec n (revealMasks known (ms ++ ms')) v c ≤ upSpec n (revealMasks known ms) v c := by
   rw [revealL_append]
-  have hm := hmin.mono (knownLe_revealL known ms)
+  have hm := minInfo_mono hmin (knownLe_revealL known ms)
   exact ⟨loSpec_mono_knowledge hm (knownLe_revealL _ ms') hv c hc,
     upSpec_anti_knowledge hm (knownLe_revealL _ ms') hv c hc⟩
 
@@ -131,7 +131,7 @@ theorem gap_anti_knowledge {n : Nat} {known known' : Nat → Bool} (hmin : MinIn
     upSpec n known' v c - loSpec known' v c ≤ upSpec n known v c - loSpec known v c ∧
       0 ≤ upSpec n known' v c - loSpec known' v c ∧ 0 ≤ upSpec n known v c - loSpec known v c :=
   ⟨sub_le_sub (upSpec_anti_knowledge hmin hle hv c hc) (loSpec_mono_knowledge hmin hle hv c hc),
-   gap_nonneg (hmin.mono hle) hv hc, gap_nonneg hmin hv hc⟩
+   gap_nonneg (minInfo_mono hmin hle) hv hc, gap_nonneg hmin hv hc⟩
 
 omit [IsOrderedAddMonoid α] in
 /-- **H.**  With full knowledge the gap is zero (indeed both bounds are the value). -/
@@ -159,7 +159,7 @@ def exV : Nat → Int := fun c => [0, 1, 2, 4, 1, 3, 5, 9].getD c 0
 def exKnown : Nat → Bool := fun c => c == 0 || c == 1 || c == 2 || c == 4 || c == 7
 
 /-- additionally the pair {0,1} (id 3) -/
-def exKnown' : Nat → Bool := reveal exKnown 3
+def exKnown' : Nat → Bool := revealMask exKnown 3
 
 theorem exV_SA : SA 3 exV := by rw [SA_iff_bounded]; decide
 
@@ -230,4 +230,4 @@ example : loSpec exKnown exV 3 = 3 ∧ upSpec 3 exKnown exV 3 = 8 := by
 
 end example3
 
-end ICG
+end ICG.SpecSA
